@@ -25,6 +25,8 @@ claimed = {
              text='On a build where every map range is a choice point, all executions of the whole pipeline with <=1/<=2 deviating ranges (rotations of the real order) and all schedules of main core vs polling Wait within delay bound 2/3 must give identical diagnostics, output and outcome; plus repeated rounds in one process.', ref='5/C14'),
  'C15': dict(technique='bounded exhaustive enumeration of module graphs (visibility configurations, overlapping names, all subsets of candidate import edges) against a reference linker',
              text='Every visibility configuration x import subset, every pair of library shapes with overlapping private names, and every subset of 12 import edges over 4 modules (cycles, self imports, missing modules) go through the real analyzer and both backends; verdict and output must equal the reference linker.', ref='5/C15'),
+ 'C19': dict(technique='bounded exhaustive enumeration of programs through print -> parse -> analyse -> run round trips and through the optimizer (differential on the real VM/interpreter)',
+             text='Every program of the shared families plus printer-centric programs: both printers must yield text that parses, is accepted, behaves identically and is a fixed point; the optimizer output must behave identically on both backends.', ref='5/C19'),
  'C16': dict(technique='explicit enumeration of all host-call histories up to a depth x all schedules within a delay bound, against the reference evaluator',
              text='All histories of SpawnSync calls over a call alphabet up to a depth on one live VM, each under all schedules within the delay bound; per-call results equal the reference model, no residue, failure instead of blocking after a failed call.', ref='5/C16'),
  'C17': dict(technique='stateless DFS over all thread interleavings of the real VM within a delay bound (controlled scheduler over lock/channel/select/sleep/spawn points)',
